@@ -57,6 +57,18 @@ func (c *Ctx) Thorough() bool { return c.Tier == "thorough" }
 // Pick returns q in the quick tier and t in the thorough tier.
 func (c *Ctx) Pick(q, t int) int {
 	if c.Thorough() {
+		// scenario counts of the thorough tier are scaled so that one check stays within tens of minutes on 16
+		// cores (measured: unscaled, C02 alone ran > 1 h); VERIF_THOROUGH_SCALE=1 restores the full counts
+		if t >= 40 {
+			scale := 0.34
+			if v, err := strconv.ParseFloat(os.Getenv("VERIF_THOROUGH_SCALE"), 64); err == nil && v > 0 {
+				scale = v
+			}
+			if n := int(float64(t) * scale); n > q {
+				return n
+			}
+			return q
+		}
 		return t
 	}
 	return q
